@@ -33,7 +33,7 @@ Weights follow a Dirichlet distribtion D(n;1,...,1)
 			return
 		}
 		al, _ := <-alignChan.Achan
-		if alignChan.Err != nil {
+		if al == nil {
 			err = alignChan.Err
 			io.LogError(err)
 			return
